@@ -7,7 +7,9 @@ package ippool
 import (
 	"context"
 
+	v3 "github.com/projectcalico/api/pkg/apis/projectcalico/v3"
 	"github.com/projectcalico/api/pkg/client/clientset_generated/clientset"
+	metav1 "k8s.io/apimachinery/pkg/apis/meta/v1"
 	"k8s.io/client-go/tools/cache"
 
 	"github.com/projectcalico/calico/libcalico-go/lib/ipam"
@@ -34,3 +36,9 @@ func VerifNewController(ctx context.Context, cli clientset.Interface, pools, blo
 
 // VerifReconcile runs one synchronous reconcile pass (what processNextItem does for the single queue key).
 func (c *IPPoolController) VerifReconcile() error { return c.reconcile() }
+
+// VerifSetCondition / VerifHasCondition expose the condition-list helpers to the driver's "conditions" stream.
+func VerifSetCondition(p *v3.IPPool, c metav1.Condition) bool { return setConditionOnPool(p, c) }
+func VerifHasCondition(p *v3.IPPool, t string, s metav1.ConditionStatus) bool {
+	return hasCondition(p, t, s)
+}
